@@ -50,7 +50,7 @@ class FakeExec:
                 with open(p, "rb") as f:
                     contents[fn] = f.read()
         rec = {"argv": list(argv), "cwd": cwd, "real_cwd": os.getcwd(), "env": dict(env) if env is not None else None,
-               "listing": listing, "contents": contents}
+               "listing": listing, "contents": contents, "timeout": kw.get("timeout")}
         self.log.append(rec)
         if self.hook is not None:
             self.hook(list(argv), rec)
@@ -87,6 +87,11 @@ class FakeExec:
             elif handle is not None and handle is not subprocess.DEVNULL and hasattr(handle, "write") and text:
                 handle.write(text if not isinstance(handle, (io.RawIOBase, io.BufferedIOBase)) else text.encode())
                 handle.flush()
+        if kw.get("timeout") is not None and act.get("duration", 0) > kw["timeout"]:
+            # the program is still running when the time the caller allows is over: subprocess.run kills it and raises
+            # (what it had written so far stays)
+            rec["rc"] = None
+            raise subprocess.TimeoutExpired(argv, kw["timeout"], output=captured.get("stdout"), stderr=captured.get("stderr"))
         if kw.get("check") and act.get("rc", 0) != 0:
             raise subprocess.CalledProcessError(act.get("rc", 0), argv, output=captured.get("stdout"), stderr=captured.get("stderr"))
         return subprocess.CompletedProcess(argv, act.get("rc", 0), stdout=captured.get("stdout"), stderr=captured.get("stderr"))
